@@ -173,12 +173,38 @@ def r4_guarded_deref(ctx):
         if f is None:
             ctx.check(not bare, LS, cname, f"{meth} accepts the bare booleans comparisons return", detail="inherits the generic handler", expected="wrap (bool, np.bool_) into BooleanType")
             continue
-        recv = [norm(c2.func.value) for c2 in ast.walk(f) if isinstance(c2, ast.Call) and isinstance(c2.func, ast.Attribute) and c2.func.attr.startswith("logical_")]
-        args = [norm(a) for c2 in ast.walk(f) if isinstance(c2, ast.Call) and isinstance(c2.func, ast.Attribute) and c2.func.attr.startswith("logical_") for a in c2.args]
-        wrapped = {norm(i.test)[len("isinstance("):].split(",")[0] for i in ast.walk(f) if isinstance(i, ast.If) and norm(i.test).startswith("isinstance(")
-                   and "bool" in norm(i.test) and any("BooleanType(" in norm(x) for x in i.body)}
-        need = set(recv) | set(args)
-        ctx.check(need <= wrapped or not bare, LS, f"{cname}.{meth}", "every operand is wrapped when it is a bare boolean", detail={"operands": sorted(need), "wrapped": sorted(wrapped)})
+        from ..flowexpr import paths
+        unwrapped, seen, unk = set(), 0, []
+        for q in paths(f):
+            if q.status == "raise":
+                continue
+            calls = [c2 for e in q.events if e.resolved is not None for c2 in ast.walk(e.resolved)
+                     if isinstance(c2, ast.Call) and isinstance(c2.func, ast.Attribute) and c2.func.attr.startswith("logical_")]
+            tests = {}
+            for t in q.tests():
+                r = t.resolved
+                if isinstance(r, ast.Call) and dotted_name(r.func) == "isinstance" and len(r.args) == 2 and "bool" in norm(r.args[1]):
+                    tests[norm(r.args[0])] = t.extra
+            for c2 in calls[-1:]:
+                for o in [c2.func.value] + list(c2.args):
+                    seen += 1
+                    if isinstance(o, ast.IfExp) and isinstance(o.test, ast.Call) and dotted_name(o.test.func) == "isinstance" and "bool" in norm(o.test.args[1]) \
+                            and norm(o.body) == f"BooleanType({norm(o.test.args[0])})" and norm(o.orelse) == norm(o.test.args[0]):
+                        continue
+                    if isinstance(o, ast.Call) and dotted_name(o.func) == "BooleanType" and len(o.args) == 1:
+                        continue          # wrapped (conditionally or not)
+                    if tests.get(norm(o)) is False:
+                        continue          # this path is the one on which the operand is not a bare boolean
+                    if tests.get(norm(o)) is True:
+                        unwrapped.add(norm(o))
+                    else:
+                        unwrapped.add(norm(o))
+        if not seen:
+            ctx.unrecognised(LS, f"{cname}.{meth}", "every operand is wrapped when it is a bare boolean", "no logical_* call found on any path")
+        else:
+            ctx.check(not unwrapped or not bare, LS, f"{cname}.{meth}", "every operand is wrapped when it is a bare boolean",
+                      detail={"operands reaching logical_* unwrapped and untested": sorted(unwrapped)} if unwrapped else None,
+                      expected="BooleanType(x) when isinstance(x, (bool, np.bool_))")
 
 
 def r5_dimension_bounds(ctx):
